@@ -46,7 +46,12 @@ func VerifC01URL() {
 		} else {
 			n := verifrt.Len(max)
 			b := append([]byte{'"'}, verifrt.Bytes(n)...)
-			b = append(b, '"')
+			if n > 0 || verifrt.Bool2() {
+				// (the empty string token also without its closing quote:
+				// the one-byte input; longer unterminated tokens end in
+				// reflect.TypeOf, which the executor does not reach)
+				b = append(b, '"')
+			}
 			_ = u.UnmarshalJSON(b)
 		}
 	case 3:
